@@ -41,6 +41,7 @@ def run(ctx):
 
     # ---------------- R17.5
     location_discipline(ctx)
+    absent_alike(ctx)
 
 
 COLL = re.compile(r'builtin::(mapping::XMapping|set::XSet)<')
@@ -592,3 +593,55 @@ def locate_summary(ctx):
         diff = {k: (a[k], b2[k]) for k in a if a[k] != b2[k]}
         r3.fail('locate/siblings', FILES[1], 'the two locate routines differ: %s' % diff)
     r3.need(7)
+
+
+TABLE_INTERNALS = re.compile(r'builtin::(mapping::XMapping|set::XSet)::(put_located|try_put_located|with_update)$|KeyLocation')
+
+
+def absent_alike(ctx):
+    """R17.6: `locate` answers Found, or one of two ways of saying "not there": Missing (no bucket for the hash) and Vacant (a bucket
+    for the hash, the key not in it).  Which of the two it is depends on what else hashes alike -- on collisions and layout only.
+    Outside the bucket-table writers (put_located / try_put_located / with_update), every decision on a location therefore treats
+    Missing and Vacant alike: the two edges go to the same block, or to code that does the same calls."""
+    mir = ctx.mir
+    r6 = ctx.rule('R17.6', 'outside the bucket-table writers, a decision on a key location does not tell Missing from Vacant')
+    for b in mir.bodies:
+        if b.file not in FILES or TABLE_INTERNALS.search(b.nid):
+            continue
+        for bb in range(len(b.blocks)):
+            tm = b.term(bb)
+            if tm['k'] != 'switch':
+                continue
+            p = op_place(tm['discr'])
+            if p is None:
+                continue
+            for kind, dbb, idx, x in b.defs().get(p['l'], []):
+                if not (kind == 'stmt' and x['rv']['k'] == 'discr'):
+                    continue
+                ty = (b.local_ty(x['rv']['place']['l']) or '').lstrip('&').replace('mut ', '')
+                m = re.match(r'^builtin::(mapping|set)::KeyLocation$', ty)
+                if not m:
+                    continue
+                adt = mir.adts.get(ty)
+                if adt is None:
+                    r6.fail('anchor/KeyLocation', b.file, 'no layout facts for %s' % ty)
+                    continue
+                vi = {v['name']: i for i, v in enumerate(adt['variants'])}
+                tg = {int(v): t for v, t in tm['targets']}
+                tm_, tv = tg.get(vi['Missing'], tm['otherwise']), tg.get(vi['Vacant'], tm['otherwise'])
+
+                def doings(start):
+                    out = []
+                    for r in sorted(b.reachable(start)):
+                        if b.is_cleanup(r):
+                            continue
+                        t2 = b.term(r)
+                        if t2['k'] == 'call':
+                            out.append(strip_generics(callee_name(t2) or t2.get('decl') or '?'))
+                    return sorted(out)
+                ok = tm_ == tv or doings(tm_) == doings(tv)
+                fn = strip_generics(mir.enclosing_fn(b)) if b.kind == 'closure' else b.nid
+                r6.inst({'fn': fn, 'decision': mirq.site(b, bb), 'missing_and_vacant_alike': ok}, ok=ok, kind=(b.nid, bb))
+                if not ok:
+                    r6.fail('%s/missing-vacant-distinguished' % fn, mirq.site(b, bb), 'the Missing and the Vacant answer of locate lead to different code: what the operation does for an absent key depends on whether another key with the same hash is stored (e.g. set_default inserts the key only when its bucket already exists)')
+    r6.need(5)
